@@ -22,7 +22,7 @@ import (
 
 // C02 — a client asked to use STARTTLS never proceeds in clear text.
 
-func init() { register(&Scenario{ID: "C02", Run: runC02}) }
+func init() { register(&Scenario{ID: "C02", Run: runC02, Alt: c02Overlap, AltEvery: 8}) }
 
 type c02Plan struct {
 	list   int // first feature list variant
